@@ -1,7 +1,7 @@
 (* C16 — property theorems.  Statements only: each is closed by [exact] of a lemma proved in
    coq/C16/RegionAlgProofs.v, followed by Print Assumptions. *)
 From Coq Require Import QArith Qabs List Bool ZArith NArith Lqa.
-From Scenic Require Import C16.RegionAlg C16.RegionAlgProofs C16.Project C16.ProjectProofs.
+From Scenic Require Import C16.RegionAlg C16.RegionAlgProofs C16.Project C16.ProjectProofs C16.Pass1 C16.Pass1Proofs.
 (* the evaluators of the generated correspondence cases belong to this property's build closure *)
 From Scenic Require C16.Cases.
 Import ListNotations.
@@ -164,6 +164,44 @@ Proof.
     + exists 0, 0, 0. repeat split; lra.
     + exists 0, 0, 0. repeat split; lra.
 Qed.
+
+(* (round 3) PASS 1 of MeshVolumeRegion.intersects: the circumradius test about the nominal positions *)
+Theorem C16_pass1_sound : forall (m1 m2 : pt -> Prop) c1 r1 c2 r2 x,
+  within m1 c1 r1 -> within m2 c2 r2 -> m1 x -> m2 x -> pass1_disjoint c1 r1 c2 r2 = false.
+Proof. exact pass1_sound. Qed.
+Theorem C16_circumradius_within : forall position vs r,
+  radius_of (circumradius_sq position vs) r -> within (fun x => In x vs) position r.
+Proof. exact circumradius_within. Qed.
+Theorem C16_pass1_repaired_sound : forall p1 vs1 r1 p2 vs2 r2 x,
+  radius_of (circumradius_sq p1 vs1) r1 -> radius_of (circumradius_sq p2 vs2) r2 ->
+  In x vs1 -> In x vs2 -> pass1_disjoint p1 r1 p2 r2 = false.
+Proof. exact pass1_repaired_sound. Qed.
+Theorem C16_ball_convex : forall c r a b t,
+  0 <= t -> t <= 1 -> d3sq c a <= sq r -> d3sq c b <= sq r -> d3sq c (lerp t a b) <= sq r.
+Proof. exact ball_convex. Qed.
+Theorem C16_max_d3sq_attained : forall c vs, vs <> [] -> exists v, In v vs /\ max_d3sq c vs == d3sq c v.
+Proof. exact max_d3sq_attained. Qed.
+Theorem C16_pass1_origin_refuted : exists p1 vs1 r1 p2 vs2 r2 x,
+  radius_of (circumradius_sq_old p1 vs1) r1 /\ radius_of (circumradius_sq_old p2 vs2) r2 /\
+  In x vs1 /\ In x vs2 /\ pass1_disjoint p1 r1 p2 r2 = true.
+Proof. exact pass1_origin_refuted. Qed.
+Theorem C16_pass1_other_centre_refuted : forall e : Q, ~ e == 0 ->
+  exists p1 vs1 r1 p2 vs2 r2 x,
+    radius_of (max_d3sq (mkpt (px p1 + e) 0 0) vs1) r1 /\ radius_of (circumradius_sq p2 vs2) r2 /\
+    In x vs1 /\ In x vs2 /\ pass1_disjoint p1 r1 p2 r2 = true.
+Proof. exact pass1_other_centre_refuted. Qed.
+Print Assumptions C16_pass1_sound.
+Print Assumptions C16_pass1_repaired_sound.
+Print Assumptions C16_ball_convex.
+Print Assumptions C16_pass1_origin_refuted.
+Print Assumptions C16_pass1_other_centre_refuted.
+(* non-vacuity: the hypotheses of C16_pass1_sound / C16_pass1_repaired_sound are satisfiable, and PASS 1 does separate far regions *)
+Example C16_pass1_example :
+  let vs1 := [mkpt 4 0 0; mkpt 6 0 0] in let vs2 := [mkpt 6 0 0; mkpt 6 3 0] in
+  radius_of (circumradius_sq (mkpt 5 0 0) vs1) 1 /\ radius_of (circumradius_sq (mkpt 6 1 0) vs2) 2 /\
+  In (mkpt 6 0 0) vs1 /\ In (mkpt 6 0 0) vs2 /\
+  pass1_disjoint (mkpt 5 0 0) 1 (mkpt 6 1 0) 2 = false /\ pass1_disjoint (mkpt 5 0 0) 1 (mkpt 60 1 0) 2 = true.
+Proof. unfold radius_of. vm_compute. repeat split; try discriminate; auto. Qed.
 
 Example C16_examples :
   disc_member (mkpt 0 0 2) 1 (mkpt (1#2) 0 2) = true /\ disc_member (mkpt 0 0 2) 1 (mkpt (1#2) 0 0) = false /\
